@@ -209,6 +209,10 @@ pub fn gen_plan(run_seed: u64) -> Plan {
     // one run in 150 is a marathon: hundreds of calls on one instance (counters, caches and
     // anything else that only shows after many calls)
     let marathon = mode != Mode::Backstep && rng.chance(1, 150);
+    // marathon kinds: 0 mixed; 1 drain (the clock stands still or creeps while the daemon is asked
+    // again and again - results run far ahead of the clock); 2 drain, then the clock jumps past
+    // everything returned so far, then drain again
+    let marathon_kind = if marathon { rng.below(3) } else { 0 };
     let flavor = match rng.weighted(&[6, 8, 6, 1]) {
         0 => Flavor::Dense,
         1 => Flavor::Sparse,
@@ -250,6 +254,28 @@ pub fn gen_plan(run_seed: u64) -> Plan {
             while events.len() < n_events {
                 let back_w = if mode == Mode::Backstep { 3 } else { 0 };
                 let w_adv = if marathon { 3 } else { 8 };
+                if marathon_kind >= 1 {
+                    // drain: next() on daemon 0, now and then a creep of less than a minute
+                    if marathon_kind == 2 && events.len() == n_events / 2 {
+                        // the suspended process wakes up: jump past the last result
+                        let target = g.lasts[0].map(|l| l as u128 * 60_000_000_000 + rng.below(86_400_000_000_000) as u128).unwrap_or(0);
+                        let adv = target.saturating_sub(g.now.as_ns());
+                        if g.now.add_ns(adv).secs < LIMIT_SECS {
+                            g.now = g.now.add_ns(adv);
+                            events.push(Ev::Advance(adv));
+                            continue;
+                        }
+                    }
+                    if rng.chance(1, 12) {
+                        let adv = rng.below(59_000_000_000) as u128;
+                        g.now = g.now.add_ns(adv);
+                        events.push(Ev::Advance(adv));
+                    } else {
+                        events.push(Ev::Next(0));
+                        model_next(&mut g, 0);
+                    }
+                    continue;
+                }
                 match rng.weighted(&[10, w_adv, 1, 1, back_w]) {
                     0 => {
                         let p = rng.usize(g.lasts.len());
